@@ -285,6 +285,21 @@ def check_callback_context(m, rule, suffixes):
                     rule.ok(site, 'NOT DECIDED: context %s' % ctx, c.loc())
             else:
                 rule.ok(site, 'NOT DECIDED: callee %s' % cv, c.loc())
+            # the int a comparison / visit function returns carries its meaning in its sign / in being zero over the whole
+            # int range: kept in a narrower variable, +256 becomes 0 and +200 becomes negative
+            if c.ty == 'i32':
+                work, seen_r = [c.ref], set()
+                while work:
+                    r0 = work.pop()
+                    if r0 in seen_r:
+                        continue
+                    seen_r.add(r0)
+                    for u in f.users(r0):
+                        if u.op == 'trunc' and (u.x.get('bits') or 32) < 32 and (u.x.get('bits') or 32) > 1:
+                            rule.violation(site + ':result', 'the result of the caller\'s function is narrowed to %s bits at %s: a comparison function only '
+                                           'promises the sign of an int, so results outside that width change sign or become 0' % (u.x.get('bits'), u.loc()), u.loc(), {})
+                        elif u.op in ('phi', 'select'):
+                            work.append(u.ref)
     return n
 
 
